@@ -126,18 +126,18 @@ _add(PropertySpec(
                  "root orders come from toposort_all (C19: bounded only)"],
 ))
 _add(PropertySpec(
-    "C03", files=["compute_super"],
-    targets=[f"{MRC}:SuperReconciliationOutput._unordered_labeling_cost", f"{MRC}:SuperReconciliationOutput.cost",
+    "C03", files=["compute_super", "unordered"],
+    targets=[f"superrec2.compute.unordered_super_reconciliation:_compute_lca_sets", f"{MRC}:SuperReconciliationOutput._unordered_labeling_cost", f"{MRC}:SuperReconciliationOutput.cost",
              f"{MRC}:ReconciliationOutput.node_event", f"{MRC}:ReconciliationOutput._cost_rec"],
     level="exploration", standins=["unordered-solvers:optimum-vs-brute-force", "uspfs-entry:recurrence-contract-at-runtime"],
     technique="bounded stand-in (both unordered solvers against an independent optimum over every species mapping and EVERY admissible labelling, not only the canonical ones) plus "
               "contract-based deductive verification of the evaluator (unordered labelling cost, event model); the USPFS table contracts are not discharged",
-    not_decided=["recurrence contract of _compute_uspfs_entry, _compute_gain_sets, _compute_lca_sets, _compute_uspfs_table, _decode_uspfs_table, _uspfs and the wrappers: NOT discharged, bounded stand-in only",
+    not_decided=["recurrence contract of _compute_uspfs_entry, _compute_gain_sets, _compute_uspfs_table, _decode_uspfs_table, _uspfs and the wrappers: NOT discharged, bounded stand-in only",
                  "'the two canonical labellings per node lose nothing' is a theorem of the model: validated on the bounded scope only (oracle compares canonical vs all labellings)"],
 ))
 _add(PropertySpec(
-    "C04", files=["compute_super"],
-    targets=[f"{MRC}:ReconciliationOutput.node_event", f"{MRC}:ReconciliationOutput._cost_rec", f"{MRC}:ReconciliationOutput.cost",
+    "C04", files=["compute_super", "unordered"],
+    targets=[f"superrec2.compute.unordered_super_reconciliation:_compute_lca_sets", f"{MRC}:ReconciliationOutput.node_event", f"{MRC}:ReconciliationOutput._cost_rec", f"{MRC}:ReconciliationOutput.cost",
              f"{SUB}:subseq_segment_dist", f"{SUB}:subseq_from_mask", f"{SUB}:mask_from_subseq"],
     level="exploration", standins=["labelled-solvers:validity-of-returned-solutions", "reconciliation:thl-exh-vs-brute-force"],
     technique="bounded stand-in (validity clauses re-checked on every solution returned by the solvers, all cost vectors incl. segmental-loss cost 0) plus "
@@ -166,9 +166,11 @@ _add(PropertySpec(
                  "coordinates beyond 'marker on the trunk edge of the right species / arrow ends at the transferred child's anchor' are not examined (C14 is not applicable)"],
 ))
 _add(PropertySpec(
-    "C15", files=["render"],
-    targets=[],
+    "C15", files=["render", "text"],
+    targets=["superrec2.utils.text:balanced_wrap"],
     level="exploration", standins=["tikz-text:well-formed-and-labels-faithful"],
-    technique="bounded stand-in (generated TikZ text and labels checked against the clauses of the statement; balanced_wrap exhaustively on small word lists); no obligation is discharged for this property yet",
-    not_decided=["balanced_wrap, format_synteny, tex.escape, get_color / render colour interning, colour propagation: NOT discharged, bounded stand-in only"],
+    technique="bounded stand-in (generated TikZ text and labels checked against the clauses of the statement; balanced_wrap exhaustively on small word lists) "
+              "plus contract-based deductive verification of balanced_wrap against an assumed contract of textwrap.wrap",
+    not_decided=["format_synteny, tex.escape, get_color / render colour interning, colour propagation, brace balance of the templates: NOT discharged, bounded stand-in only",
+                 "textwrap.wrap(break_long_words=False) keeps the words, respects the width unless a single word is longer and fills greedily: ASSUMED (library), exercised by the stand-in"],
 ))
